@@ -735,6 +735,19 @@ pub fn main(ctx: Ctx) -> ! {
         traces += st.transitions;
         complete &= st.complete;
     }
+    // The class-CH zone as an explicit-state closure over its whole alphabet:
+    // every reachable store of the CH zone, every add out of it.
+    {
+        let ops: Vec<usize> = (0..env_ch.alpha.len()).collect();
+        let t0 = ctx.elapsed_s();
+        let st = closure(&ctx, &env_ch, &ops);
+        eprintln!("[C20] closure over {} adds (class CH zone, whole alphabet): {} states, {} transitions, depth {} ({:.1}s)", ops.len(), st.states, st.transitions, st.levels.len() - 1, ctx.elapsed_s() - t0);
+        parts.push(json!({"family": "explicit-state closure, visited key = complete tree from Debug", "apex": "z.y.", "class": env_ch.class, "sub_alphabet": "class CH zone, whole alphabet", "adds": ops.iter().map(|i| env_ch.alpha[*i].to_json()).collect::<Vec<_>>(), "states": st.states, "transitions": st.transitions, "states_first_reached_per_depth": st.levels, "closure_reached": st.complete, "wall_s": ((ctx.elapsed_s() - t0) * 100.0).round() / 100.0}));
+        states += st.states;
+        transitions += st.transitions;
+        traces += st.transitions;
+        complete &= st.complete;
+    }
     ctx.set_extra("states", json!(states));
     ctx.set_extra("transitions", json!(transitions));
     ctx.set_extra("traces_validated_against_impl", json!(traces));
